@@ -336,7 +336,7 @@ func covered(sh lsheet, r, c int) (inMerge, root bool) {
 
 // RunWorkbook generates workbook #idx of the seed's stream and checks it.
 func RunWorkbook(c *hx.Ctx, idx int, keep bool) {
-	r := c.Rng.Fork(uint64(idx))
+	r := hx.NewRng(c.Seed).Fork(uint64(idx)) // independent of how far c.Rng has advanced, so a case replays from (seed, index)
 	nsheets := r.Range(1, 3)
 	big := r.Chance(1, 12)
 	var sheets []lsheet
